@@ -335,7 +335,10 @@ def call_gcp(x, g, lb, ub, mats):
     if lg is not None:
         del _LOGCFG[lg].records[:]
         _LOGCFG["counts"][lg] = _LOGCFG["counts"].get(lg, 0) + 1
-    return get_cauchy_point(x.copy(), g.copy(), lb.copy(), ub.copy(), mats, 1, iprint, None if lg is None else _LOGCFG[lg].logger)
+    # the iteration number is a display argument; the solver passes 0 in the first iteration of a fresh run (empty memory) and the
+    # checkpoint's number in the first iteration of a continuation (memory empty or not)
+    it = [0, 1, 7][_LOGCFG["n"] % 3] if not has_pairs(mats) else [1, 3, 0][_LOGCFG["n"] % 3]
+    return get_cauchy_point(x.copy(), g.copy(), lb.copy(), ub.copy(), mats, it, iprint, None if lg is None else _LOGCFG[lg].logger)
 
 
 def is_nontrivial(x, g, lb, ub, ref):
